@@ -92,6 +92,22 @@ class Accum(object):
     def nothing(self):
         self.log.append(("nothing",))
 
+    @server.expose
+    def tags(self):
+        self.log.append(("tags",))
+        return [{"t%d" % self.total, "u"}, (self.total, -1)]     # containers that some serializers map to others
+
+    @server.expose
+    def seal(self):
+        """from now on the name 'add' resolves to another (exposed) method of this object"""
+        self.log.append(("seal",))
+        self.add = self.add_sealed
+
+    @server.expose
+    def add_sealed(self, x=1):
+        self.log.append(("add_sealed", x))
+        raise PermissionError("sealed")
+
     def unexposed(self):
         self.log.append(("unexposed",))
         self.total += 1000
